@@ -9,6 +9,7 @@ import (
 	"reflect"
 	"regexp"
 	"strings"
+	"unicode/utf8"
 )
 
 // bltn type defines functions which run at CFG execution.
@@ -2915,8 +2916,6 @@ func compositeLitKeyedNotype(n *node) { doCompositeLitKeyed(n, false) }
 
 func empty(n *node) {}
 
-var rat = reflect.ValueOf((*[]rune)(nil)).Type().Elem() // runes array type
-
 func _range(n *node) {
 	index0 := n.child[0].findex // array index location in frame
 	index2 := index0 - 1        // shallow array for range, always just behind index0
@@ -2931,23 +2930,23 @@ func _range(n *node) {
 		index1 := n.child[1].findex        // array value location in frame
 		doValue := n.child[1].ident != "_" // no location in frame for a blank value
 		if isString(an.typ.TypeOf()) {
-			// Special variant of "range" for string, where the index indicates the byte position
-			// of the rune in the string, rather than the index of the rune in array.
-			stringType := reflect.TypeOf("")
-			value = genValueAs(an, rat) // range on string iterates over runes
+			// Special variant of "range" for string, where the runes are decoded from the bytes
+			// of the string: the index is the byte position of the rune in the string, and an
+			// invalid byte yields the rune error, of width 1.
+			sv := genValue(an)
+			value = func(f *frame) reflect.Value { return reflect.ValueOf(sv(f).String()) } // the operand is evaluated once
 			n.exec = func(f *frame) bltn {
-				a := f.data[index2]
-				v0 := f.data[index3]
-				v0.SetInt(v0.Int() + 1)
-				i := int(v0.Int())
-				if i >= a.Len() {
+				s := f.data[index2].String()
+				v0 := f.data[index3] // byte position of the next rune
+				pos := int(v0.Int())
+				if pos >= len(s) {
 					return fnext
 				}
-				// Compute byte position of the rune in string
-				pos := a.Slice(0, i).Convert(stringType).Len()
+				r, size := utf8.DecodeRuneInString(s[pos:])
+				v0.SetInt(int64(pos + size))
 				f.data[index0].SetInt(int64(pos))
 				if doValue {
-					f.data[index1].Set(a.Index(i))
+					f.data[index1].SetInt(int64(r))
 				}
 				return tnext
 			}
@@ -2971,17 +2970,17 @@ func _range(n *node) {
 		an = n.child[1]
 		if isString(an.typ.TypeOf()) {
 			// As above, the index is the byte position of the rune in the string.
-			stringType := reflect.TypeOf("")
-			value = genValueAs(an, rat) // range on string iterates over runes
+			sv := genValue(an)
+			value = func(f *frame) reflect.Value { return reflect.ValueOf(sv(f).String()) } // the operand is evaluated once
 			n.exec = func(f *frame) bltn {
-				a := f.data[index2]
-				v0 := f.data[index3]
-				v0.SetInt(v0.Int() + 1)
-				i := int(v0.Int())
-				if i >= a.Len() {
+				s := f.data[index2].String()
+				v0 := f.data[index3] // byte position of the next rune
+				pos := int(v0.Int())
+				if pos >= len(s) {
 					return fnext
 				}
-				pos := a.Slice(0, i).Convert(stringType).Len()
+				_, size := utf8.DecodeRuneInString(s[pos:])
+				v0.SetInt(int64(pos + size))
 				f.data[index0].SetInt(int64(pos))
 				return tnext
 			}
@@ -3000,13 +2999,13 @@ func _range(n *node) {
 
 	// Init sequence
 	next := n.exec
-	index := index0
+	index, start := index0, int64(-1)
 	if isString(an.typ.TypeOf()) {
-		index = index3
+		index, start = index3, 0
 	}
 	n.child[0].exec = func(f *frame) bltn {
-		f.data[index2] = value(f) // set array shallow copy for range
-		f.data[index].SetInt(-1)  // assing index value
+		f.data[index2] = value(f)   // set array shallow copy for range
+		f.data[index].SetInt(start) // assign index value
 		return next
 	}
 }
